@@ -6,7 +6,7 @@ from facts import callee_path, is_param_call
 from model import CHANNEL_FNS, SEND_FNS, RECV_FNS, short
 from rules_sched import (NODE_COUNT_FNS, TAKE, cond_guards, guard_eq_zero, is_const, sources_of_expr, interrupt_mapper,
                          effective_sites, user_awaits, structure_roles, iterator_chain, closure_of_arg, return_expr,
-                         SELECTIVE_ITER, NEUTRAL_ITER, MORE_ITER, ALL_NODE_SOURCES, LOOKUP_FNS, node_index_arg, const_val)
+                         SELECTIVE_ITER, NEUTRAL_ITER, MORE_ITER, ALL_NODE_SOURCES, LOOKUP_FNS, node_index_arg, const_val, loop_region)
 from rules_term import release_sites, is_pre_scheduler_body
 
 FOR_EACH_CONCURRENT = "futures::StreamExt::for_each_concurrent"
@@ -165,6 +165,16 @@ def L2(ctx, rule="L2"):
                 continue
             a = uas[0]
             call_bb = pcs[0][0]
+            # loop form: the step is the body of `while let Some(x) = ready.next().await { .. }` inside one coroutine
+            lr = loop_region(ctx, b, call_bb) if b.kind == "coroutine" else None
+            if lr is not None and lr["driver"] == "await":
+                ok_seq = a.ready_bb is not None and b.all_paths_pass(call_bb, [a.ready_bb], [lr["next_bb"]] + b.exits())
+                ctx.check(ok_seq, rule, "await-before-return|%s" % key, m.where(b, a.into_bb),
+                          "the loop step dequeues the next id only after the Ready arm of the user future's await (<= 1 in flight)",
+                          "the loop can dequeue the next id / finish without the user future having completed")
+                ctx.ok(rule, "sequential|%s" % key, m.where(b),
+                       "the step is the body of a `while let Some(..) = ready.next().await` loop of one coroutine (sequential by construction)")
+                continue
             # every assignment of the returned value reachable from the user call is dominated by the Ready arm
             bad = []
             for kind, bb, si, x in get_defs(b).of(0):
@@ -302,15 +312,20 @@ def F_rules(ctx, rule="F"):
         if "RESULT" not in s["roles"]:
             continue
         cb = s["body"]
-        par = fb.bodies.get(cb.parent) if cb.parent else None
+        if cb.kind == "coroutine" and s["fn"].endswith("::recv"):
+            # `while let Some(e) = result_rx.recv().await { results.push(e) }` in the entry's own async body
+            par = cb
+            site = (cb, s["bb"])
+        else:
+            par = fb.bodies.get(cb.parent) if cb.parent else None
+            site = None
         if par is None:
             continue
         n3 += 1
         ctx.cover(rule + "3", par.id)
         key = short(par.id)
         # the poll_fn(closure).collect().await in `par`; the join await must dominate it
-        site = None
-        for (pb, bb, si, st) in fl.closure_sites().get(cb.id, []):
+        for (pb, bb, si, st) in (fl.closure_sites().get(cb.id, []) if par is not cb else []):
             site = (pb, bb)
         join_aw = []
         for a in awaits(par):
@@ -331,11 +346,31 @@ def F_rules(ctx, rule="F"):
             if (callee_path(t) or "").endswith("::is_empty"):
                 vsrc = fl.sources_operand(par, t["args"][0])
                 is_coll = any(x.kind == "alloc" and "collect" in x[4] for x in vsrc)
+                if not is_coll:
+                    # a vector filled by pushing every item received from the RESULT channel
+                    for pbb, pt in par.calls():
+                        if (callee_path(pt) or "").endswith("Vec::<T, A>::push") and set(fl.sources_operand(par, pt["args"][0])) & set(vsrc):
+                            isrc = fl.sources_operand(par, pt["args"][1])
+                            roles_, other_ = m.roles_of_sources(isrc, half=1)
+                            if roles_ == {"RESULT"} and not other_ and all("$item" in x[3] for x in isrc):
+                                lr = loop_region(ctx, par, pbb)
+                                is_coll = lr is not None and not lr["early_exits"] and not [g for g in cond_guards(par, pbb) if g[0] in lr["blocks"] and g[0] != lr.get("switch_bb")
+                                                                                            and (par.blocks[g[0]]["term"].get("sp") or {}).get("desugar") != "Await"]
                 # Ok on true arm, Err on false arm
                 oks = errs = None
                 for kind, dbb, si, x in get_defs(par).of(0):
                     if kind == "stmt" and x["rv"]["k"] == "agg" and x["rv"].get("def") == "std::result::Result":
-                        gs = [(sb, vals) for sb, vals in guards_of(par, dbb) if par.blocks[sb]["term"]["discr"].get("pl", {}).get("l") == t["dest"]["l"]]
+                        gs = []
+                        for sb, vals in guards_of(par, dbb):
+                            ge = strip_refs(switch_expr(par, sb))
+                            neg = False
+                            while ge.kind == "unop" and ge[1] == "Not":
+                                neg = not neg
+                                ge = strip_refs(ge[2])
+                            if ge.kind == "call" and len(ge) > 3 and ge[3] == bb:
+                                if neg:
+                                    vals = frozenset(("otherwise" if v == "0" else "0") for v in vals)
+                                gs.append((sb, vals))
                         if gs:
                             taken_true = "otherwise" in gs[0][1] and "0" not in gs[0][1]
                             if x["rv"]["variant"] == "Ok":
@@ -705,7 +740,8 @@ def O_rules(ctx, rule="O"):
                       "the id pushed to fn_ids_processed is the id dequeued from READY",
                       "fn_ids_processed receives an id with sources %s" % [fmt_src(s) for s in idsrc][:4])
             # location: not inside a per-item body (recorded at dequeue, not at completion)
-            in_item = any(b.id in m.reach(pb.id) for e in m.entries for pb in m.per_item_bodies(e["id"]))
+            in_item = any(b.id == pb.id or b.id.startswith(pb.id + "::") or b.id in m.reach_calls(pb.id)
+                          for e in m.entries for pb in m.per_item_bodies(e["id"]))
             ctx.check(not in_item and not b.back_edges(), rule + "1", "push-at-dequeue|%s" % key, m.where(b, bb),
                       "the push happens in the ready-stream adaptor (at dequeue, once per id), not in the per-item body",
                       "the push happens in the per-item body / in a loop: order and multiplicity of fn_ids_processed no longer follow the dequeue order")
@@ -754,7 +790,10 @@ def O_rules(ctx, rule="O"):
             other = [n for n in names if n in SELECTIVE_ITER and n not in ("std::iter::Iterator::filter_map", "std::iter::Iterator::filter")
                      or n in MORE_ITER]
             if srcn and len(fms) == 1 and not other:
-                g_ok = strip_refs(srcn[0][2][2][0]) == E(("arg", p_graph)) and srcn[0][1].id == newb.id
+                ge_ = strip_refs(srcn[0][2][2][0])
+                while ge_.kind == "call" and (ge_[1].endswith("Dag::<N, E, Ix>::graph") or ge_[1] == "std::ops::Deref::deref") and ge_[2]:
+                    ge_ = strip_refs(ge_[2][0])     # the Dag's inner petgraph: same nodes, same order
+                g_ok = ge_ == E(("arg", p_graph)) and srcn[0][1].id == newb.id
                 fcl = closure_of_arg(ctx, fms[0][1], fms[0][2][2][1])
                 if fcl is not None:
                     cont = [(bb, t) for bb, t in fcl.calls() if (callee_path(t) or "").endswith("::contains")]
@@ -780,6 +819,15 @@ def O_rules(ctx, rule="O"):
                                             some_arm = tt
                                         else:
                                             none_arm = tt
+                        if fms[0][0] == "std::iter::Iterator::filter":
+                            # `filter(|id| !processed.contains(id))`: kept iff not contained
+                            re_ = return_expr(fcl)
+                            neg = False
+                            while re_ is not None and re_.kind == "unop" and re_[1] == "Not":
+                                neg = not neg
+                                re_ = strip_refs(re_[2])
+                            if re_ is not None and re_.kind == "call" and len(re_) > 3 and re_[3] == bbc and neg:
+                                some_arm, none_arm = False, True
                         ok2 = g_ok and h_ok and some_arm is False and none_arm is True
                         why = "structure is the parameter: %s; haystack is fn_ids_processed: %s; Some on not-contained: %s; None on contained: %s" % (
                             g_ok, h_ok, some_arm is False, none_arm is True)
